@@ -507,6 +507,7 @@ def run(ctx):
     r6 = Rule("C17", "C17.R6", "duplicate choice names are rejected on every list shape", floor=1,
               necessary="a duplicate accepted because one of the rows lacks a label yields two items with one value")
     choice_list_obligations(ctx, r6, "C17.R6")
+    _choices_block_obligations(ctx, r6, "C17.R6")
     rules.append(r6)
     # select-from-file rows: the file name must have exactly one suffix and it must be a supported one, for every
     # spelling of the type (evaluated)
@@ -532,6 +533,50 @@ def run(ctx):
     rules.append(r7)
     rules.append(_survey_sheet_settings_rule(ctx))
     return rules
+
+
+def _choices_block_obligations(ctx, rule, rid):
+    """The choices-sheet block of workbook_to_json (text cleaning on / off -> header pass -> grouping -> validation),
+    evaluated as a block: a choice without a name or a repeated name is refused with the library's error citing the
+    choice's row, a choice without a label gets its row-citing warning - with clean_text_values on AND off (the row
+    numbers the messages cite must exist on both paths)."""
+    from ..interp import Obj
+    w2j = ctx.func("pyxform.xls2json:workbook_to_json", rid)
+    blk = next((st for st in w2j.node.body if isinstance(st, ast.If) and isinstance(st.test, ast.Name) and st.test.id == "choices_sheet"
+                and any(isinstance(c, ast.Call) and call_name(c) == "validate_and_clean_choices" for c in ast.walk(st))), None)
+    if blk is None:
+        rule.note("the choices block of workbook_to_json was not recognised (if choices_sheet: ... validate_and_clean_choices); block obligations skipped")
+        return
+    option_fields = set(ctx.consts.get("pyxform.question", "OPTION_FIELDS", rid))
+    free = {n.id for n in ast.walk(blk) if isinstance(n, ast.Name) and isinstance(n.ctx, ast.Load)}
+    LISTS = {
+        "a choice without a name": ([{"list_name": "l", "name": "a", "label": "A"}, {"list_name": "l", "label": "B"}], "error", 3),
+        "a repeated choice name": ([{"list_name": "l", "name": "a", "label": "A"}, {"list_name": "l", "name": "b", "label": "B"}, {"list_name": "l", "name": "a", "label": "C"}], "error", 4),
+        "a choice without a label": ([{"list_name": "l", "name": "a", "label": "A"}, {"list_name": "l", "name": "b"}], "warning", 3),
+        "a well-formed list": ([{"list_name": "l", "name": "a", "label": "A"}, {"list_name": "m", "name": "a", "label": "A2"}], "ok", None),
+    }
+    for clean in (True, False):
+        for desc, (rows, want, row_no) in LISTS.items():
+            data = [dict(r_) for r_ in rows]
+            hdr = {}
+            for r_ in data:
+                for k_ in r_:
+                    hdr.setdefault(k_, None)
+            wd = Obj(None, {"choices": data, "choices_header": [hdr]}, name="workbook_dict")
+            warnings = []
+            env = {"choices_sheet": data, "clean_text_values_enabled": clean, "workbook_dict": wd, "option_fields": option_fields, "default_language": "default", "warnings": warnings,
+                   "settings": {}, "json_dict": {}, "choices": {}}
+            env = {k: v for k, v in env.items() if k in free or k in ("choices", "json_dict")}
+            it = ctx.interp(rid, hooks={"new:DealiasAndGroupHeadersResult": lambda i, a, k, n: Obj(None, dict(k) if k else {"headers": a[0], "data": a[1]}, name="result")})
+            it.reset([])
+            try:
+                it.exec_block([blk], env, w2j.module)
+                got, msg = ("warning" if warnings else "ok"), " ".join(str(w_) for w_ in warnings)
+            except Raised as e:
+                got, msg = ("error" if "PyXFormError" in e.mro else f"raises {e.exc_name}{e.exc_args}"), str(e.exc_args[0]) if e.exc_args else ""
+            ok = got == want and (row_no is None or f"[row : {row_no}]" in msg)
+            rule.check(ok, f"choices block[clean_text_values={'yes' if clean else 'no'}; {desc}]", {"error": f"refused with PyXFormError citing row {row_no}", "warning": f"accepted with a warning citing row {row_no}", "ok": "accepted silently"}[want],
+                       w2j.loc(blk), why_fail=f"{got}: {msg[:120]}")
 
 
 def _survey_sheet_settings_rule(ctx):
